@@ -89,8 +89,8 @@ OpRemove(N, cons, x) == OkSet({OldMerge(N, FreeSet(N, Subtree(N, x)), cons, x)})
 
 OpReplace(N, cons, o, x) ==
     LET q == N[o].p IN
-    IF ~(IsNormal(N, o) /\ N[o].k # "doc" /\ q # 0 /\ MovePre(N, q, x)) THEN Unch(N)
-    ELSE IF x = o THEN NoopReq(N)
+    IF x = o THEN NoopReq(N)       \* replacing a node by itself: nothing to do (ok or err, unchanged)
+    ELSE IF ~(IsNormal(N, o) /\ N[o].k # "doc" /\ q # 0 /\ MovePre(N, q, x)) THEN Unch(N)
     ELSE LET D == DetachRaw(N, x)
              L0 == InsertNormalAt(D, q, x, Pos(NormKids(D, q), o))
              L == FreeSet(L0, Subtree(D, o))
